@@ -43,6 +43,23 @@ type Contract struct {
 	hasMod    bool
 	ghostPre  []string
 	ghostSet  []ghostAssign
+	ghostExit []ghostAssign
+	allocGlobs []string
+}
+
+func (c *Contract) allocatesRegion(r string) bool {
+	if !c.allocates {
+		return false
+	}
+	if len(c.allocGlobs) == 0 {
+		return true
+	}
+	for _, g := range c.allocGlobs {
+		if matchRegion(g, r) {
+			return true
+		}
+	}
+	return false
 }
 
 type ghostAssign struct {
@@ -234,6 +251,9 @@ func (w *World) externFor(fn *ssa.Function, full string) externHandler {
 	case p == "github.com/go-logr/zapr" || p == "github.com/go-logr/logr":
 		return externPure
 	}
+	if !strings.HasPrefix(p, modulePath) && fn.Signature.Recv() != nil && (fn.Name() == "String" || fn.Name() == "Error") {
+		return externPure
+	}
 	return nil
 }
 
@@ -411,6 +431,16 @@ func (w *World) loadContracts(file, pkgPath string) error {
 				n.src = item
 				cur.modifies = append(cur.modifies, n)
 			}
+		case "ghostset", "ghostexit":
+			n, err := parseSpec(p.text)
+			if err != nil {
+				return fmt.Errorf("%s:%d: %v", file, p.line, err)
+			}
+			if p.kind == "ghostset" {
+				cur.ghostSet = append(cur.ghostSet, ghostAssign{name: p.extra, expr: n})
+			} else {
+				cur.ghostExit = append(cur.ghostExit, ghostAssign{name: p.extra, expr: n})
+			}
 		case "pred":
 			// Name(a, b) := body
 			i := strings.Index(p.text, ":=")
@@ -500,10 +530,22 @@ func (w *World) loadContracts(file, pkgPath string) error {
 			cur.inline = true
 		case "allocates":
 			cur.allocates = true
+			for _, g := range splitTopComma(rest) {
+				if g = strings.Trim(strings.TrimSpace(g), `"`); g != "" {
+					cur.allocGlobs = append(cur.allocGlobs, g)
+				}
+			}
 		case "atomic":
 			cur.atomic = rest
 		case "blocks":
 			cur.blocks = rest
+		case "ghost_exit":
+			// ghost_exit g_name := expr      (executed at every exit of the function, before the postconditions; may mention result)
+			j := strings.Index(rest, ":=")
+			if j < 0 || cur == nil {
+				return fmt.Errorf("%s:%d: bad ghost_exit", file, lineNo)
+			}
+			pend = &pending{kind: "ghostexit", extra: strings.TrimSpace(rest[:j]), text: rest[j+2:], line: lineNo}
 		case "ghost":
 			// ghost g_name : sort            (declaration)
 			// ghost g_name := expr           (inside a func block: executed at entry of the function)
@@ -511,11 +553,7 @@ func (w *World) loadContracts(file, pkgPath string) error {
 				if cur == nil {
 					return fmt.Errorf("%s:%d: ghost assignment outside func", file, lineNo)
 				}
-				n, err := parseSpec(rest[j+2:])
-				if err != nil {
-					return fmt.Errorf("%s:%d: %v", file, lineNo, err)
-				}
-				cur.ghostSet = append(cur.ghostSet, ghostAssign{name: strings.TrimSpace(rest[:j]), expr: n})
+				pend = &pending{kind: "ghostset", extra: strings.TrimSpace(rest[:j]), text: rest[j+2:], line: lineNo}
 				break
 			}
 			i := strings.Index(rest, ":")
